@@ -621,7 +621,11 @@ func c05bfs[V any](w *report.W, im c05impl[V], ctor string, ops []c05op, depth i
 							results[fi] = append(results[fi], out{bad: true})
 							continue
 						}
-						key := snap.State(&m)
+						// The search state is the pair (implementation state,
+						// model state): two histories that drive the real map
+						// into the same memory but the model into different
+						// contents must both be judged.
+						key := snap.State(&m) + "|" + model.String()
 						results[fi] = append(results[fi], out{key: key, hist: h, model: model.String()})
 						_ = no
 					}
